@@ -5,7 +5,6 @@ package main
 import (
 	"fmt"
 	"math/big"
-	"os"
 	"strings"
 	"sync"
 
@@ -18,103 +17,6 @@ var (
 	one = big.NewInt(1)
 	two = big.NewInt(2)
 )
-
-type vals struct {
-	v   []*big.Int // integer values in [0,q)
-	cls []string   // class label of each
-}
-
-// lattice returns the boundary operand list of a field (values, not representations)
-// plus values whose Montgomery representation hits limb patterns.
-func lattice[E any, P fields.Ptr[E]](f *fields.Field[E, P], rng *gen.Rng, nRandom int, big_ bool) vals {
-	q := f.Modulus
-	var out vals
-	seen := map[string]bool{}
-	add := func(v *big.Int, cls string) {
-		v = new(big.Int).Mod(v, q)
-		k := v.String()
-		if seen[k] {
-			return
-		}
-		seen[k] = true
-		out.v = append(out.v, v)
-		out.cls = append(out.cls, cls)
-	}
-	sub := func(a, b *big.Int) *big.Int { return new(big.Int).Sub(a, b) }
-	for i := int64(0); i <= 3; i++ {
-		add(big.NewInt(i), "small")
-		add(sub(q, big.NewInt(i+1)), "q-small")
-	}
-	h := new(big.Int).Rsh(q, 1)
-	add(h, "(q-1)/2")
-	add(new(big.Int).Add(h, one), "(q+1)/2")
-	add(sub(h, one), "(q-3)/2")
-	r := f.R()
-	add(r, "R")
-	add(new(big.Int).Mul(r, r), "R^2")
-	add(new(big.Int).Neg(r), "-R")
-	rinv := new(big.Int).ModInverse(r, q)
-	add(rinv, "R^-1")
-	w := f.LimbBits
-	for k := w / 2; k < f.Bits+1; k += w / 2 {
-		if !big_ && k%w != 0 {
-			continue
-		}
-		p := new(big.Int).Lsh(one, uint(k))
-		add(p, "2^k")
-		add(sub(p, one), "2^k-1")
-		add(new(big.Int).Add(p, one), "2^k+1")
-		add(new(big.Int).Neg(p), "-2^k")
-	}
-	// Montgomery-limb patterns: raw representation with limbs from a pattern set; value = raw*R^-1
-	mask := new(big.Int).Sub(new(big.Int).Lsh(one, uint(w)), one)
-	qlimb := func(i int) *big.Int { return new(big.Int).And(new(big.Int).Rsh(q, uint(i*w)), mask) }
-	pats := func(i int) []*big.Int {
-		ql := qlimb(i)
-		return []*big.Int{big.NewInt(0), big.NewInt(1), new(big.Int).Set(mask), ql, new(big.Int).Add(ql, one), sub(ql, one), new(big.Int).Lsh(one, uint(w-1))}
-	}
-	addRaw := func(raw *big.Int, cls string) {
-		if raw.Sign() < 0 || raw.Cmp(q) >= 0 {
-			return
-		}
-		add(new(big.Int).Mul(raw, rinv), cls)
-	}
-	np := 7
-	// uniform patterns (all limbs same pattern index) and single-limb deviations
-	for pi := 0; pi < np; pi++ {
-		raw := new(big.Int)
-		for i := 0; i < f.Limbs; i++ {
-			raw.Or(raw, new(big.Int).Lsh(new(big.Int).And(pats(i)[pi], mask), uint(i*w)))
-		}
-		addRaw(raw, fmt.Sprintf("mont-limbs-uniform-%d", pi))
-		for dv := 0; dv < f.Limbs; dv++ {
-			for pj := 0; pj < np; pj++ {
-				if !big_ && (pj+dv+pi)%3 != 0 {
-					continue
-				}
-				raw2 := new(big.Int)
-				for i := 0; i < f.Limbs; i++ {
-					p := pats(i)[pi]
-					if i == dv {
-						p = pats(i)[pj]
-					}
-					raw2.Or(raw2, new(big.Int).Lsh(new(big.Int).And(p, mask), uint(i*w)))
-				}
-				if f.Limbs > 1 {
-					addRaw(raw2, "mont-limbs-mixed")
-				}
-			}
-		}
-	}
-	// q with last limb borrowed etc. raw = q-1, q-2^w, ...
-	for i := 0; i < f.Limbs; i++ {
-		addRaw(sub(q, new(big.Int).Lsh(one, uint(i*w))), "mont-raw-q-2^iw")
-	}
-	for i := 0; i < nRandom; i++ {
-		add(rng.BigBelow(q), "random")
-	}
-	return out
-}
 
 type env[E any, P fields.Ptr[E]] struct {
 	c   *mon.Ctx
@@ -166,24 +68,24 @@ func run[E any, P fields.Ptr[E]](c *mon.Ctx, f *fields.Field[E, P]) {
 	e := &env[E, P]{c, f, q, rng}
 	N := f.Name
 	bigL := c.Thorough()
-	L := lattice(f, rng, c.Pick(12, 60), bigL)
+	L := fields.Lattice(f, rng, c.Pick(12, 60), bigL)
 	// keep the pairwise part bounded in quick: cap lattice for pairs
 	pairL := L
-	if capN := c.Pick(90, 400); len(pairL.v) > capN {
+	if capN := c.Pick(90, 400); len(pairL.V) > capN {
 		// keep all non-mixed classes, subsample mixed
-		var p vals
-		for i := range L.v {
-			if L.cls[i] != "mont-limbs-mixed" || rng.Intn(len(L.v)) < capN/2 {
-				p.v = append(p.v, L.v[i])
-				p.cls = append(p.cls, L.cls[i])
+		var p fields.Vals
+		for i := range L.V {
+			if L.Cls[i] != "mont-limbs-mixed" || rng.Intn(len(L.V)) < capN/2 {
+				p.V = append(p.V, L.V[i])
+				p.Cls = append(p.Cls, L.Cls[i])
 			}
 		}
 		pairL = p
 	}
-	c.Extra(N+".lattice", map[string]int{"unary": len(L.v), "pairs": len(pairL.v)})
+	c.Extra(N+".lattice", map[string]int{"unary": len(L.V), "pairs": len(pairL.V)})
 	hx := func(v *big.Int) string { return v.Text(16) }
-	els := make([]E, len(L.v))
-	for i, v := range L.v {
+	els := make([]E, len(L.V))
+	for i, v := range L.V {
 		els[i] = e.el(v)
 		// self-check of the adapter: Value(FromValue(v)) == v and library BigInt agrees (C08 covers conversions in depth)
 		if f.Value(&els[i]).Cmp(v) != 0 {
@@ -191,17 +93,17 @@ func run[E any, P fields.Ptr[E]](c *mon.Ctx, f *fields.Field[E, P]) {
 			return
 		}
 	}
-	pels := make([]E, len(pairL.v))
-	for i, v := range pairL.v {
+	pels := make([]E, len(pairL.V))
+	for i, v := range pairL.V {
 		pels[i] = e.el(v)
 	}
 	half := oinv(two, q)
 
 	// ---------- unary ----------
-	unary := func(vals vals, els []E) {
-		for i, v := range vals.v {
+	unary := func(vals fields.Vals, els []E) {
+		for i, v := range vals.V {
 			x := els[i]
-			cls := vals.cls[i]
+			cls := vals.Cls[i]
 			d := func(op string) func() string { return func() string { return op + "(" + hx(v) + ")" } }
 			c.Current(N + " unary " + hx(v))
 			c.Class(N + "/unary/" + cls)
@@ -281,8 +183,8 @@ func run[E any, P fields.Ptr[E]](c *mon.Ctx, f *fields.Field[E, P]) {
 		rng.BigBits(1000), new(big.Int).Neg(rng.BigBits(700)), rng.BigBits(f.Bits), new(big.Int).Neg(rng.BigBits(f.Bits / 2)),
 		new(big.Int).Rsh(q, 1)}
 	bases := []int{}
-	for i := range L.v {
-		if L.cls[i] != "mont-limbs-mixed" && (L.cls[i] != "2^k" && L.cls[i] != "2^k+1" && L.cls[i] != "-2^k" || i%3 == 0) {
+	for i := range L.V {
+		if L.Cls[i] != "mont-limbs-mixed" && (L.Cls[i] != "2^k" && L.Cls[i] != "2^k+1" && L.Cls[i] != "-2^k" || i%3 == 0) {
 			bases = append(bases, i)
 		}
 	}
@@ -293,8 +195,8 @@ func run[E any, P fields.Ptr[E]](c *mon.Ctx, f *fields.Field[E, P]) {
 			}
 			var z E
 			P(&z).Exp(els[i], k)
-			e.chk("Exp", L.cls[i], &z, oexp(L.v[i], k, q), func() string { return fmt.Sprintf("Exp(%s, %s)", hx(L.v[i]), k.String()) })
-			c.Class(fmt.Sprintf("%s/Exp/%s/k%d", N, L.cls[i], ki))
+			e.chk("Exp", L.Cls[i], &z, oexp(L.V[i], k, q), func() string { return fmt.Sprintf("Exp(%s, %s)", hx(L.V[i]), k.String()) })
+			c.Class(fmt.Sprintf("%s/Exp/%s/k%d", N, L.Cls[i], ki))
 		}
 	}
 	// the exponent argument must not be modified
@@ -306,15 +208,15 @@ func run[E any, P fields.Ptr[E]](c *mon.Ctx, f *fields.Field[E, P]) {
 	}
 
 	// ---------- binary, all pairs ----------
-	for i, a := range pairL.v {
+	for i, a := range pairL.V {
 		x := pels[i]
-		for j, b := range pairL.v {
+		for j, b := range pairL.V {
 			y := pels[j]
 			c.Current(N + " binary " + hx(a) + " " + hx(b))
 			d := func(op string) func() string {
 				return func() string { return op + "(" + hx(a) + ", " + hx(b) + ")" }
 			}
-			cls := pairL.cls[i] + "," + pairL.cls[j]
+			cls := pairL.Cls[i] + "," + pairL.Cls[j]
 			var z E
 			pz := P(&z)
 			pz.Add(&x, &y)
@@ -360,9 +262,9 @@ func run[E any, P fields.Ptr[E]](c *mon.Ctx, f *fields.Field[E, P]) {
 				e.chk("Select", cls, &z, b, d("Select(2^40)"))
 			}
 		}
-		c.Class(N + "/binary-row/" + pairL.cls[i] + "/" + hx(a))
+		c.Class(N + "/binary-row/" + pairL.Cls[i] + "/" + hx(a))
 	}
-	c.SampleOnce(N, map[string]any{"field": N, "op": "Mul", "x": hx(pairL.v[len(pairL.v)/2]), "y": hx(pairL.v[len(pairL.v)-1]), "operand_classes": pairL.cls[len(pairL.v)/2] + "," + pairL.cls[len(pairL.v)-1]})
+	c.SampleOnce(N, map[string]any{"field": N, "op": "Mul", "x": hx(pairL.V[len(pairL.V)/2]), "y": hx(pairL.V[len(pairL.V)-1]), "operand_classes": pairL.Cls[len(pairL.V)/2] + "," + pairL.Cls[len(pairL.V)-1]})
 
 	// ---------- random tuples (bulk) ----------
 	nr := c.Pick(3000, 150000)
@@ -429,7 +331,7 @@ func run[E any, P fields.Ptr[E]](c *mon.Ctx, f *fields.Field[E, P]) {
 			vs := make([]*big.Int, n)
 			in := make([]E, n)
 			for i := range vs {
-				vs[i] = L.v[(i*7+n+zpos+2)%len(L.v)]
+				vs[i] = L.V[(i*7+n+zpos+2)%len(L.V)]
 				if i == zpos || zpos == -2 {
 					vs[i] = new(big.Int)
 				}
@@ -464,7 +366,7 @@ func run[E any, P fields.Ptr[E]](c *mon.Ctx, f *fields.Field[E, P]) {
 			a, b := make([]E, n), make([]E, n)
 			for i := 0; i < n; i++ {
 				if variant == 0 {
-					av[i], bv[i] = L.v[(i*5+n)%len(L.v)], L.v[(i*11+3*n+1)%len(L.v)]
+					av[i], bv[i] = L.V[(i*5+n)%len(L.V)], L.V[(i*11+3*n+1)%len(L.V)]
 					if n > 4 && i%3 == 0 { // heavy on q-1 so reductions in accumulators are stressed
 						av[i], bv[i] = new(big.Int).Sub(q, one), new(big.Int).Sub(q, big.NewInt(int64(1+i%2)))
 					}
@@ -485,7 +387,7 @@ func run[E any, P fields.Ptr[E]](c *mon.Ctx, f *fields.Field[E, P]) {
 			c.Current(fmt.Sprintf("%s vector n=%d variant=%d", N, n, variant))
 			c.Class(fmt.Sprintf("%s/vector/n%d/v%d", N, n, variant))
 			res := make([]E, n)
-			sc := L.v[(n+3)%len(L.v)]
+			sc := L.V[(n+3)%len(L.V)]
 			scE := e.el(sc)
 			type vop struct {
 				name string
@@ -533,11 +435,10 @@ func run[E any, P fields.Ptr[E]](c *mon.Ctx, f *fields.Field[E, P]) {
 
 func main() {
 	c := mon.Init("C01")
-	only := os.Getenv("VERIF_ONLY")
 	var wg sync.WaitGroup
 	sem := make(chan struct{}, 16)
 	for _, fl := range allFields {
-		if only != "" && !strings.Contains(fl.name, only) {
+		if !mon.Selected(fl.name) {
 			continue
 		}
 		wg.Add(1)
